@@ -184,6 +184,7 @@ type Fault struct {
 
 // HSObs is what the server learnt during a key exchange.
 type HSObs struct {
+	Server                       string `json:",omitempty"`
 	Nonce, ServerNonce, NewNonce []byte
 	RSACiphertext                []byte
 	GA, GB, AuthKey              []byte
@@ -195,11 +196,36 @@ type HSObs struct {
 	ClientP, ClientQ             []byte
 }
 
+// Barrier lets n parties proceed together (or each on its own after the timeout).
+type Barrier struct {
+	mu      sync.Mutex
+	N       int
+	arrived int
+	ch      chan struct{}
+}
+
+func NewBarrier(n int) *Barrier { return &Barrier{N: n, ch: make(chan struct{})} }
+
+func (b *Barrier) Wait() {
+	b.mu.Lock()
+	b.arrived++
+	if b.arrived == b.N {
+		close(b.ch)
+	}
+	b.mu.Unlock()
+	select {
+	case <-b.ch:
+	case <-time.After(300 * time.Millisecond):
+	}
+}
+
 type Server struct {
-	Name  string
-	ln    net.Listener
-	Key   *RSAKey
-	Store *Store
+	// DHBarrier, when set, is passed before server_DH_params_ok is sent
+	DHBarrier *Barrier
+	Name      string
+	ln        net.Listener
+	Key       *RSAKey
+	Store     *Store
 
 	mu      sync.Mutex
 	seq     *int
@@ -547,7 +573,7 @@ func (c *Conn) plain(f []byte) error {
 	switch ctor {
 	case IDReqPQ:
 		c.hsp = c.S.NextHS()
-		c.hs = &HSObs{Nonce: append([]byte{}, br.Take(16)...), ServerNonce: c.hsp.ServerNonce}
+		c.hs = &HSObs{Server: c.S.Name, Nonce: append([]byte{}, br.Take(16)...), ServerNonce: c.hsp.ServerNonce}
 		c.S.mu.Lock()
 		c.S.HS = append(c.S.HS, c.hs)
 		c.S.mu.Unlock()
@@ -681,6 +707,10 @@ func (c *Conn) plain(f []byte) error {
 		}
 		o := &W{}
 		o.U32(IDServerDHOk).Raw(oNonce).Raw(oSN).Str(encAns)
+		if c.S.DHBarrier != nil {
+			// key exchanges of several clients of one process reach this step together
+			c.S.DHBarrier.Wait()
+		}
 		return c.sendPlain(o.B)
 	case IDSetClientDH:
 		if c.hs == nil || c.hs.NewNonce == nil || c.a == nil {
